@@ -31,6 +31,6 @@ print(json.dumps(m))
 PY
 fi
 echo "overlay: $(cat $o)"
-export VERIF_BUILD_DIR=/tmp/seed-build VERIF_OUT_DIR=/tmp/seed-out; mkdir -p $VERIF_BUILD_DIR $VERIF_OUT_DIR
+export VERIF_BUILD_DIR=${SEED_BUILD:-/tmp/seed-build} VERIF_OUT_DIR=${SEED_OUT:-/tmp/seed-out}; mkdir -p $VERIF_BUILD_DIR $VERIF_OUT_DIR
 cd /verif && VERIF_EXTRA_OVERLAY="$o" VERIF_WALL_S="$wall" ./verif.sh check "$prop" "$tier" 2>&1 | grep -v "^$\|^KNOWN" | cut -c1-400 | tail -8
 echo "exit=${PIPESTATUS[0]}"
